@@ -6,12 +6,21 @@
 // The lr_guarded object is DEFAULT-initialised by placement new (`new (buf) LR;`) into storage pre-filled with
 // a poison byte (0x01 when the slot count is odd, 0xFF when even): the variadic constructor with zero arguments
 // must run and initialise the flags and counters.
-// cfg = <slots per thread> <throw plan: global indices of the user_call invocations that throw>...
+// cfg = <slots per thread> <throw plan: global indices of the user_call invocations that throw>... <flags>...
+//       flags are NEGATIVE entries (never equal to an invocation index, so the plan - and the model - ignore them):
+//       -1  construct the object from an RVALUE payload `LR(LPay(0))`; LPay's move constructor leaves its source
+//           with the recognisable value -7777.  (Without -1: default-initialisation into poisoned storage.)
+//           The second copy must be copied from the first, not built from the moved-from argument.
+//       -2  Mutex = std::timed_mutex instead of std::mutex (same lock/unlock events; the try_lock_shared_for /
+//           _until forms ignore their argument and must not touch the write mutex)
 // ops:  0 fid   modify(f_fid)        f_fid(x) = user_call(fid); x.write(x.read()*8+fid); user_call(fid+100)
 //       0 fid 1 the same modification passed as an RVALUE class object whose call operator is value-category
 //               aware: operator()(T&) && behaves like f_fid and then gives up its state (every later call only
 //               does user_call(fid+50)).  modify must apply its named parameter (an lvalue) twice, so the
 //               && overload never runs and the trace is the same as for `0 fid`.
+//       0 fid 2 the same modification issued from the destructor of a scope guard while an unrelated exception
+//               unwinds the stack (std::uncaught_exceptions() > 0 throughout): same trace as `0 fid`; a functor
+//               exception is carried out of the destructor by hand and re-raised after the unwinding
 //       1..4 s  lock_shared / try_lock_shared / try_lock_shared_for / try_lock_shared_until into slot s
 //       5 s     read once through the handle in slot s (returns the value)
 //       6 s     release the handle in slot s
@@ -30,6 +39,12 @@
 // payload: VPay with an equality that ignores the auxiliary modifications (fid 7)
 struct LPay: vs::VPay {
     using vs::VPay::VPay;
+    LPay() = default;
+    LPay(const LPay&) = default;
+    LPay& operator=(const LPay&) = default;
+    // destructive move: the source is left with a recognisable value (no events: moves only happen on the
+    // driver thread, before the object exists)
+    LPay(LPay&& o) noexcept: vs::VPay(o.v) { o.v = -7777; }
     static long strip7(long v)
     {
         long out = 0, mul = 1;
@@ -74,46 +89,76 @@ struct RvFunctor {
     }
 };
 
-struct LRComp {
-    using LR = gmlc::libguarded::lr_guarded<LPay, vstd::mutex>;
-    using Handle = LR::shared_handle;
+// the component, for one mutex type
+template<class M>
+struct LRImpl {
+    using LR = gmlc::libguarded::lr_guarded<LPay, M>;
+    using Handle = typename LR::shared_handle;
     alignas(LR) unsigned char buf[sizeof(LR)];
     LR* lrp;
-    LR& lr;
     // the deleter holds a reference: handles cannot be move-assigned, so they are emplaced
-    std::vector<std::vector<std::optional<Handle>>> slots;  // destroyed before lr
+    std::vector<std::vector<std::optional<Handle>>> slots;
     int ns;
-    static LR* make(unsigned char* b, int ns)
+    LRImpl(const vs::Case& c, bool from_rvalue): ns((int)(c.cfg.empty() ? 0 : c.cfg[0]))
     {
-        std::memset(b, (ns % 2) ? 0x01 : 0xFF, sizeof(LR));
-        return new (b) LR;  // default-initialisation: no parentheses, no braces
-    }
-    LRComp(const LRComp&) = delete;
-    ~LRComp()
-    {
-        slots.clear();
-        lrp->~LR();
-    }
-    explicit LRComp(const vs::Case& c):
-        lrp(make(buf, (int)(c.cfg.empty() ? 0 : c.cfg[0]))), lr(*lrp), ns((int)(c.cfg.empty() ? 0 : c.cfg[0]))
-    {
+        std::memset(buf, (ns % 2) ? 0x01 : 0xFF, sizeof(LR));
+        if (from_rvalue)
+            lrp = new (buf) LR(LPay(0L));  // rvalue argument with a destructive move
+        else
+            lrp = new (buf) LR;  // default-initialisation: no parentheses, no braces
         slots.resize(c.progs.size());
         for (auto& s : slots) s.resize((size_t)ns);
-        vs::plan().reset(c.cfg.size() > 1 ? std::vector<long>(c.cfg.begin() + 1, c.cfg.end()) : std::vector<long>{});
+    }
+    LRImpl(const LRImpl&) = delete;
+    ~LRImpl()
+    {
+        slots.clear();  // handles first
+        lrp->~LR();
+    }
+    void plain_modify(long a)
+    {
+        lrp->modify([a](vs::VPay& x) {
+            vs::user_call(a);
+            x.write(x.read() * 8 + a);
+            vs::user_call(a + 100);
+        });
     }
     long op(int tid, const std::vector<long>& o)
     {
+        LR& lr = *lrp;
         const long a = o.size() > 1 ? o[1] : 0;
-        if (o[0] == 0 && o.size() > 2 && o[2] == 1) {
+        const long flag = o.size() > 2 ? o[2] : 0;
+        if (o[0] == 0 && flag == 1) {
             lr.modify(RvFunctor{a});
             return 0;
         }
+        if (o[0] == 0 && flag == 2) {
+            // modify() from a destructor during stack unwinding
+            std::exception_ptr fromFunctor;
+            try {
+                struct Guard {
+                    LRImpl& self;
+                    long a;
+                    std::exception_ptr& out;
+                    ~Guard()
+                    {
+                        try {
+                            self.plain_modify(a);
+                        }
+                        catch (...) {
+                            out = std::current_exception();
+                        }
+                    }
+                } guard{*this, a, fromFunctor};
+                throw 1;
+            }
+            catch (int) {
+            }
+            if (fromFunctor) std::rethrow_exception(fromFunctor);
+            return 0;
+        }
         if (o[0] == 0) {
-            lr.modify([a](vs::VPay& x) {
-                vs::user_call(a);
-                x.write(x.read() * 8 + a);
-                vs::user_call(a + 100);
-            });
+            plain_modify(a);
             return 0;
         }
         if (a < 0 || a >= ns) return -1;
@@ -134,6 +179,7 @@ struct LRComp {
     void final(std::vector<std::vector<long>>& out)
     {
 #ifndef VS_NO_PEEK
+        LR& lr = *lrp;
         out.push_back({lr.m_left.peek(), lr.m_right.peek(), (long)lr.m_readingLeft.vs_peek(),
                        (long)lr.m_countingLeft.vs_peek(), (long)lr.m_leftReadCount.vs_peek(),
                        (long)lr.m_rightReadCount.vs_peek(), vs::plan().faults});
@@ -143,6 +189,30 @@ struct LRComp {
 #else
         (void)out;
 #endif
+    }
+};
+
+struct LRComp {
+    std::unique_ptr<LRImpl<vstd::mutex>> plain;
+    std::unique_ptr<LRImpl<vstd::timed_mutex>> timed;
+    explicit LRComp(const vs::Case& c)
+    {
+        std::vector<long> plan;
+        bool rv = false, tm = false;
+        for (size_t i = 1; i < c.cfg.size(); ++i) {
+            if (c.cfg[i] == -1) rv = true;
+            else if (c.cfg[i] == -2) tm = true;
+            else plan.push_back(c.cfg[i]);
+        }
+        vs::plan().reset(plan);
+        if (tm) timed.reset(new LRImpl<vstd::timed_mutex>(c, rv));
+        else plain.reset(new LRImpl<vstd::mutex>(c, rv));
+    }
+    long op(int tid, const std::vector<long>& o) { return timed ? timed->op(tid, o) : plain->op(tid, o); }
+    void final(std::vector<std::vector<long>>& out)
+    {
+        if (timed) timed->final(out);
+        else plain->final(out);
     }
 };
 int main(int argc, char** argv) { return vs::drive<LRComp>(argc, argv); }
